@@ -369,6 +369,10 @@ func (p *idp) mint(ans *AnsSpec, grant string, lg *login, old *rtRec) (map[strin
 	if ans.Big {
 		ts.Groups = 300
 	}
+	if ans.IatSkew != 0 {
+		ts.Iat += int64(ans.IatSkew)
+		ts.Nbf = ts.Iat
+	}
 	// audience
 	audOK := true
 	switch class {
